@@ -104,6 +104,9 @@ func TestC01(t *testing.T) {
 			where = ctx.ListPredicate(rt)
 		}
 		st := &lib.Stmt{Kind: "select", Star: true, Where: where, NoSelKW: rapid.IntRange(0, 4).Draw(rt, "bareWhere") == 0}
+		if rapid.IntRange(0, 9).Draw(rt, "semis") == 0 {
+			st.Semis = rapid.IntRange(1, 2).Draw(rt, "nsemis")
+		}
 		c := &c01Case{Stmt: st, Pairs: pairs, Batch: bs}
 		lib.Journal("C01", "c01", c)
 		msg, nt, labels := checkC01(c)
